@@ -16,7 +16,7 @@ func main() {
 	if err != nil {
 		panic(err)
 	}
-	prog, spkgs := ssautil.Packages(pkgs, ssa.InstantiateGenerics)
+	prog, spkgs := ssautil.Packages(pkgs, ssa.InstantiateGenerics|ssa.GlobalDebug)
 	_ = prog
 	for _, p := range spkgs {
 		p.Build()
